@@ -157,7 +157,8 @@ def run(chk):
                 continue
             used.add(p)
             if rng.random() < 0.15:
-                spec.append((os.path.join("in", p), "l", rng.choice(["nowhere", "a", "."])))
+                # never "." or an ancestor as target: recursive gathering follows directory links and would run away (not this property)
+                spec.append((os.path.join("in", p), "l", rng.choice(["nowhere", "a", "a.txt"])))
             else:
                 spec.append((os.path.join("in", p), "f", "content of " + p))
         for mode, tmpl in (("-n", "%Base()%Ext()"), ("-n", "%Name()"), ("-d", "%Name()"), ("-d", "%Base()%Ext()"),
